@@ -660,7 +660,7 @@ theorem layout_adjacent (start avail : Nat) (sizes : List Nat) (hfit : sizes.sum
     have hk' : k < (offsets start sizes).length := by rw [offsets_length]; exact hk
     rw [List.getD_eq_getElem?_getD] at h1 ⊢
     rw [List.getD_eq_getElem?_getD]
-    simp only [List.getElem?_zip_eq_some, hk, hk', List.getElem?_eq_getElem, Option.getD_some] at h1 ⊢
+    simp only [hk, hk', List.getElem?_eq_getElem, Option.getD_some] at h1 ⊢
     rw [List.getElem?_eq_getElem (by simp [offsets_length, hk])]
     simp [h1]
   have htake : ∀ k, k < sizes.length → (sizes.take (k + 1)).sum = (sizes.take k).sum + sizes.getD k 0 :=
